@@ -449,7 +449,9 @@ TypeOfRaw(env, ctx, e) ==
                      r == CheckArms(env, ctx, arms, c.t, 1, Good(TNever, FALSE, FALSE, <<>>)) IN
                  IF r.c # "ok" THEN r
                  ELSE IF e.dflt = NIL /\ ~Compat(TNull, r.t, TRUE) THEN Fail("BranchMismatch")       \* a value is expected: default arm missing
-                 ELSE Good(IF Len(arms) = 0 THEN TNull ELSE r.t, c.nv \/ r.nv, r.bk, c.pr \o r.pr)
+                 \* (without a default arm the match is left when no literal matches: it is null even if every arm diverges)
+                 ELSE Good(IF Len(arms) = 0 \/ (e.dflt = NIL /\ r.t.k = "never") THEN TNull ELSE r.t,
+                           IF e.dflt = NIL THEN c.nv ELSE c.nv \/ r.nv, r.bk, c.pr \o r.pr)
       [] e.k = "try" ->
             LET b == CheckBlock(env, ctx, e.b, FALSE) IN
             IF b.c # "ok" THEN b
